@@ -71,12 +71,24 @@ def check(ctx):
     ctx.touch(qs)
     ps = only(its.run_function(qs), qs)
     evs = [e for e in ps.events if e.kind == "ext_call" and e.data["callee"] in QUADRATURE]
-    if len(evs) != 1:
+    if len(evs) > 1:
         raise AnalysisError(f"{qs}: expected one quadrature call")
-    where = f"{fs.file}:{evs[0].line}"
-    y = check_quadrature(ctx, "C08-b", evs[0], its, {"pressure"}, qs + ":cumulative_trapezoid", where)
-    k = _factor(its, ps.value, evs[0])
-    if y is not None and k is not None:
+    if not evs:
+        from .common import handrolled_trapezoid
+
+        st, yv, xv = handrolled_trapezoid(its, its.to_nf(ps.value), {"pressure"})
+        if st == "none":
+            raise AnalysisError(f"{qs}: neither a library quadrature nor a recognisable hand-written trapezoid rule")
+        ctx.check(st == "ok", "C08-b", qs + ":hand-written trapezoid", fs.where(), "a hand-written quadrature is the cumulative trapezoid rule sum 1/2 (y[j+1] + y[j]) (x[j+1] - x[j]) over the pressure column with signed differences", signature="hand-written quadrature", reason=yv if st != "ok" else "")
+        if st == "ok":
+            ctx.identity("C08-a", qs + ":integrand", fs.where(), "integrated quantity == 2 * pressure / (viscosity * z_factor) over the function's own columns", yv, nf.div(nf.mul(two, nf.sym("pressure")), nf.mul(nf.sym("viscosity"), nf.sym("z_factor"))))
+        evs = None
+    where = f"{fs.file}:{evs[0].line}" if evs else fs.where()
+    y = check_quadrature(ctx, "C08-b", evs[0], its, {"pressure"}, qs + ":cumulative_trapezoid", where) if evs else None
+    k = _factor(its, ps.value, evs[0]) if evs else None
+    if evs is None:
+        pass
+    elif y is not None and k is not None:
         ctx.identity(
             "C08-a", qs + ":integrand", where,
             "integrated quantity == 2 * pressure / (viscosity * z_factor) over the function's own columns",
@@ -121,6 +133,10 @@ def check(ctx):
             )
     else:
         ctx.bad("C08-a", qb + ":integrand", where, "the 'pseudopressure' column is a constant multiple of the cumulative integral over the pressure grid", signature="pseudopressure column")
+    # C08-c: the table is built for the supplied composition (shared with C19-b)
+    from .c19 import check_builder
+
+    check_builder(ctx, "C08-c")
     ctx.floor("C08", len(ctx.obligs), 9, "pseudopressure route obligations")
 
 
